@@ -56,11 +56,13 @@ EXCLUDE_FLAGS = [
     ('site_if1_call', 'known:one-line-if (subroutine inlined into the statement of a one-line IF)'),
     ('clash_actual', 'known:actual-mentions-dummy-name (actual argument mentions a caller variable named like a callee dummy)'),
     ('const_elseif', 'known:dead-code-elseif (remove_dead_code on ELSE IF with constant condition)'),
-    ('act_stride', 'known:strided-actual (stride of a section actual is dropped)'),
+    ('act_stride', 'known:stride-dropped (stride of a section actual is dropped)'),
+    ('callee_stride', 'known:stride-dropped (stride of a section of the dummy inside the callee is dropped)'),
     ('act_larger', 'known:larger-actual (whole array larger than the explicit-shape dummy)'),
     ('lb_inquiry', 'known:bounds-inquiry (LBOUND/UBOUND of an array dummy with lower bound /= 1)'),
     ('fn_in_while', 'known:function-in-while (function inlined out of a DO WHILE condition)'),
-    ('act_lower_zero', 'known:section-lower-zero (section actual with lower bound 0)'),
+    ('act_lower_zero', 'known:zero-bound-section (section actual with lower bound 0)'),
+    ('callee_zero_bound', 'known:zero-bound-section (section of the dummy inside the callee with a bound 0)'),
     ('assumed_caller_lb', 'known:assumed-shape-caller-lb (assumed-shape dummy, caller array with lower bound /= 1)'),
     ('act_muldiv', 'known:multiplicative-actual (product / quotient actual substituted next to * or /)'),
     ('member_uses_param', 'known:constants-member-use (inlined PARAMETER still referenced by an internal procedure)'),
@@ -283,7 +285,7 @@ def root_cause(text, ep, o):
         for a in actuals:
             if isinstance(a, sym.Array) and any(isinstance(d, sym.RangeIndex) and d.step is not None
                                                 for d in (a.dimensions or ())):
-                return 'strided-actual'
+                return 'stride-dropped'
     for r, actuals, c in calls:
         if isinstance(c, ir.CallStatement):
             for d, a in c.arg_map.items():
@@ -291,12 +293,25 @@ def root_cause(text, ep, o):
                     ed, ea = extents(d.shape), extents(a.shape)
                     if ed and ea and ed != ea:
                         return 'larger-actual'
+    # (the same two root causes on the callee side: sections of the array dummy inside an inlined subroutine)
+    for r in inl_subs:
+        adn = {a.name.lower() for a in r.arguments if isinstance(a, sym.Array)}
+        secs = [d for v in FindVariables(unique=False).visit(r.body) if isinstance(v, sym.Array) and v.name.lower() in adn
+                for d in (v.dimensions or ()) if isinstance(d, sym.RangeIndex)]
+        if any(d.step is not None for d in secs):
+            return 'stride-dropped'
+    for r in inl_subs:
+        adn = {a.name.lower() for a in r.arguments if isinstance(a, sym.Array)}
+        secs = [d for v in FindVariables(unique=False).visit(r.body) if isinstance(v, sym.Array) and v.name.lower() in adn
+                for d in (v.dimensions or ()) if isinstance(d, sym.RangeIndex)]
+        if any((d.lower is not None and intval(d.lower) == 0) or (d.upper is not None and intval(d.upper) == 0) for d in secs):
+            return 'zero-bound-section'
     # 1b'. section actual with literal lower bound 0 / assumed-shape dummy with a caller array whose lower bound is not 1
     for r, actuals, c in sub_calls:
         for a in actuals:
             if isinstance(a, sym.Array) and any(isinstance(d, sym.RangeIndex) and d.lower is not None and intval(d.lower) == 0
                                                 for d in (a.dimensions or ())):
-                return 'section-lower-zero'
+                return 'zero-bound-section'
     for r, actuals, c in calls:
         if isinstance(c, ir.CallStatement):
             for d, a in c.arg_map.items():
